@@ -20,6 +20,13 @@ def run(out, tier):
                         "Filters: SummariesSound for every expression")
     out.add_tlc(r, "MCFilters exhaustive: one state per filter expression (%s), invariant SummariesSound over 5 levels x 4 targets x {event, span} x 2 contexts"
                 % ("all expressions of depth <= 2" if quick else "depth <= 2 plus a depth-3 family"))
+    # 1b. the stack-level combination of hints (Layered::pick_level_hint + none-marker): sound for every stack of <= 3 elements
+    #     outside the shape of known finding F17, and the model exhibits F17 itself
+    LS = SPEC / "LayerStack"
+    rh = vlib.require_ok(vlib.tlc(LS, "HintCombine", cfg="HintCombine", workers=4, timeout=900), "HintCombine: UnsoundOnlyF17, SoundOutsideF17")
+    out.add_tlc(rh, "HintCombine exhaustive: every stack of <= 3 elements (leaf with hint NoHint/OFF/ERROR/INFO/TRACE, absent leaf, and_then of two leaves): "
+                    "an unsound published hint occurs only in the shape of finding F17")
+    out.extra["f17_counterexample_in_model"] = (vlib.tlc(LS, "HintCombine", cfg="HintCombineF17", workers=2, timeout=300).kind == "invariant")
     exprs = vlib.read_ndjson(cases)
     # 2. the REAL filters: what they publish vs what they decide, observed through a Spy on a real stack
     bins = vlib.cargo_build(["filters"])
